@@ -408,6 +408,7 @@ example : ∃ P J, applyMatcher (stage2Args exArgs exC 3) (some exT) exToks exSi
     ex_first (by decide) exSimFn 3 8
   obtain ⟨J, hJ, row, hrow, hk, -⟩ := C01.setsim_complete .jaccard (Or.inl rfl) exArgs exT exToks 4 exL exR ex_valid
     (1 / 2) rfl exThr exScope exLs exLs_mem exRs exRs_mem exLs_present exRs_present exPair_nonempty exPair_qual
+    (by decide +kernel)
   have hkeys : (keyOf exL exArgs.lKey exLs, keyOf exR exArgs.rKey exRs) = (Cell.int 1, Cell.int 7) := by decide +kernel
   have hJin : InResult J (keyOf exL exArgs.lKey exLs) (keyOf exR exArgs.rKey exRs) := ⟨row, hrow, hk⟩
   have hiff := (pipeline_iff .jaccard exArgs exT exToks exL exR (Or.inl rfl) ex_valid ex_names (1 / 2) rfl exThr exScope
@@ -452,7 +453,7 @@ example : ∃ P J, applyMatcher (stage2Args edA edC 3) none C03.exToks edSimFn 8
     InResult J (.int 1) (.int 7) ∧ InResult P (.int 1) (.int 7) ∧ ¬ InResult P (.int 1) (.int 8) := by
   obtain ⟨P, hP⟩ := pipeline_ed_returns edA C03.exT C03.exToks C03.exL C03.exR ed_valid ⟨by decide, by decide, by decide⟩
     1 2 edC ed_first (by decide) edSimFn 3 8
-  obtain ⟨J, hJ⟩ := C03.returns_frame edA C03.exT C03.exToks 4 C03.exL C03.exR 1 ed_valid rfl
+  obtain ⟨J, hJ⟩ := C03.returns_frame edA C03.exT C03.exToks 4 C03.exL C03.exR 1 ed_valid rfl (by decide +kernel)
   have h7 := pipeline_ed edA C03.exT C03.exToks C03.exL C03.exR ed_valid ⟨by decide, by decide, by decide⟩ 1 rfl
     (by decide) rfl 2 rfl true (fun _ => rfl) edC ed_first (by decide) edSimFn (fun _ _ => rfl) 3 8 P hP 4 J hJ
     [.int 1, .str "abc"] [.int 7, .str "abd"] (by decide) (by decide) "abc" "abd" (by decide) (by decide)
